@@ -943,9 +943,9 @@ def run(R):
                    "the real file is a gzip stream (magic, CM=8, XFL matching the level) that gunzips to the payload")
     witnesses(R)
     selfcheck(R)
-    file_accessor_part(R, 320 if quick else 10000)
-    sharded_part(R, 120 if quick else 3000)
-    dispatch_part(R, 160 if quick else 4000)
+    file_accessor_part(R, 560 if quick else 10000)
+    sharded_part(R, 200 if quick else 3000)
+    dispatch_part(R, 240 if quick else 4000)
 
 
 def replay(R, payload):
